@@ -283,6 +283,15 @@ def o_bloom(case):
         if kind == "item":
             item = bytes.fromhex(op[1])
             f.add_item(item)
+        elif kind == "collide":
+            # a different element whose MurmurHash3 value under one of the filter's hash functions equals that of the
+            # previously added element (constructed, not searched for): its other bit positions still have to be set
+            if not added or len(added[-1]) < 8 or nfuncs == 0:
+                continue
+            fn = op[1] % nfuncs
+            item = refhash.murmur3_collision_partner(added[-1], (fn * 0xFBA4C795 + tweak) & M32, op[2], op[3])
+            f.add_item(item)
+            labels.add("collides-under-fn=%s" % ("0" if fn == 0 else "1+"))
         elif kind == "hash160":
             item = (bytes.fromhex(op[1]) * 20)[:20]
             f.add_hash160(item)
@@ -335,6 +344,7 @@ def s_bloom():
         hx.map(lambda h: ["hash160", h]),
         st.tuples(st.integers(0, 255), hx).map(lambda t: ["address", t[0], t[1]]),
         st.tuples(hx, st.one_of(st.integers(0, 3), st.integers(0, M32)), st.booleans()).map(lambda t: ["spendable", t[0], t[1], t[2]]),
+        st.tuples(st.sampled_from([0, 0, 0, 1, 2, 5]), st.integers(0, 8), st.integers(0, M32)).map(lambda t: ["collide", t[0], t[1], t[2]]),
     )
     return st.fixed_dictionaries({"size": size, "nfuncs": nfuncs, "tweak": tweak, "ops": st.lists(op, max_size=6)})
 
@@ -360,6 +370,6 @@ SUBCHECKS = [
     SubCheck("bloom_histories", o_bloom, strategy=s_bloom, budget=(3000, 200000),
              nontrivial=lambda c, l: len(c["ops"]) > 0 and c["nfuncs"] > 0,
              rule="filter sizes {1,2,7,8,255,256,36000,uniform}, 0-50 hash functions, tweaks 32-bit and wider, up to 6 adds via "
-                  "add_item/add_hash160/add_address/add_spendable: after every add filter_bytes == BIP37 bitmap, every added "
+                  "add_item/add_hash160/add_address/add_spendable, or an element constructed to collide with the previous one under one of the filter's hash functions: after every add filter_bytes == BIP37 bitmap, every added "
                   "item's bits test set, peer-side contains() matches; non-trivial = at least one add with >=1 function"),
 ]
